@@ -356,7 +356,7 @@ def run(index, rep, tier):
                 rep.check(ok, "R10.7", fi.qualname, "forwarded first_match_only, result iterated", fn_where(fi, c),
                           "%s forwards first_match_only=%s and consumes the matching shape" % (fi.name, fmv),
                           "%s forwards the caller's `%s` to _lookup_label and then iterates the result unconditionally: with %s=True the result is a single Taxon and the loop raises TypeError" % (fi.qualname, fmv, fmv))
-        rep.floor("R10.7", "callers of _lookup_label", 8, ncall)
+        rep.floor("R10.7", "callers of _lookup_label", 5, ncall)
         # the callee's shape
         rets = [n for n in walk_no_nested(lk.node) if isinstance(n, ast.Return)]
         cfg = cfg_of(lk)
